@@ -40,6 +40,7 @@ import (
 	"path/filepath"
 	"sort"
 	"strings"
+	"time"
 	"unicode/utf8"
 
 	"golang.org/x/crypto/bcrypt"
@@ -567,7 +568,12 @@ func (h *authHist) monitors(username *string, pw string, class string, user stri
 			}
 			for _, v := range []*group.Description{h.noWild, h.opWild} {
 				t.Checked("C08.shadow")
-				u2, p2, err2 := v.GetPermission(h.gname, group.ClientCredentials{Username: username, Password: pw})
+				var u2 string
+				var p2 []string
+				var err2 error
+				watched(t, fmt.Sprintf("GetPermission(%s, %q) (wildcard variant)", userTok(username), pw), func() {
+					u2, p2, err2 = v.GetPermission(h.gname, group.ClientCredentials{Username: username, Password: pw})
+				})
 				if classify(err2) != class || u2 != user || sortedPerms(p2) != sortedPerms(perms) {
 					t.Fail("C08", "shadow", fmt.Sprintf("user %q password %q: %s %v with the configured wildcard user, %s %v with another one",
 						*username, pw, class, perms, classify(err2), p2))
@@ -588,8 +594,30 @@ func (h *authHist) monitors(username *string, pw string, class string, user stri
 	}
 }
 
+// watched runs one call into the implementation under a watchdog: a login or
+// join attempt must be answered.  One that does not return within 60 s (a
+// leaked slot of the hashing semaphore, a lock never released) is a refusal
+// of whatever was presented, the right password included; the goroutine is
+// stuck, so the driver reports and stops.
+func watched(t *tr.Trace, what string, f func()) {
+	done := make(chan struct{})
+	go func() { f(); close(done) }()
+	t.Checked("C08.login_answered")
+	select {
+	case <-done:
+	case <-time.After(60 * time.Second):
+		t.Fail("C08", "login_answered", what+" did not return within 60 s: after the attempts made so far in this process a login, with the right password too, is never answered any more")
+		t.Abort("a login attempt never returned")
+	}
+}
+
 func (h *authHist) login(username *string, pw string) string {
-	user, perms, err := h.desc.GetPermission(h.gname, group.ClientCredentials{Username: username, Password: pw})
+	var user string
+	var perms []string
+	var err error
+	watched(h.t, fmt.Sprintf("GetPermission(%s, %q) after %d accepted and %d refused attempts", userTok(username), pw, h.nOK, h.nRef), func() {
+		user, perms, err = h.desc.GetPermission(h.gname, group.ClientCredentials{Username: username, Password: pw})
+	})
 	class := classify(err)
 	obs := class
 	if err == nil {
@@ -612,7 +640,11 @@ func (h *authHist) login(username *string, pw string) string {
 func (h *authHist) join(username *string, pw string) {
 	h.nextID++
 	c := &fakeClient{id: fmt.Sprintf("c%d", h.nextID)}
-	g, err := group.AddClient(h.gname, c, group.ClientCredentials{Username: username, Password: pw})
+	var g *group.Group
+	var err error
+	watched(h.t, fmt.Sprintf("AddClient(%s, %q)", userTok(username), pw), func() {
+		g, err = group.AddClient(h.gname, c, group.ClientCredentials{Username: username, Password: pw})
+	})
 	class := classify(err)
 	member := false
 	if gg := group.Get(h.gname); gg != nil {
@@ -622,7 +654,12 @@ func (h *authHist) join(username *string, pw string) {
 	h.t.Op(obs, "join", c.id, userTok(username), hx(pw), h.oracleFor(username, pw))
 	h.t.Checked("C08.refused_outside")
 	// the same attempt directly
-	u2, p2, err2 := h.desc.GetPermission(h.gname, group.ClientCredentials{Username: username, Password: pw})
+	var u2 string
+	var p2 []string
+	var err2 error
+	watched(h.t, fmt.Sprintf("GetPermission(%s, %q) after AddClient", userTok(username), pw), func() {
+		u2, p2, err2 = h.desc.GetPermission(h.gname, group.ClientCredentials{Username: username, Password: pw})
+	})
 	if classify(err2) != class {
 		h.t.Fail("C08", "refused_outside", fmt.Sprintf("AddClient: %s, GetPermission: %s", class, classify(err2)))
 	}
@@ -1477,7 +1514,12 @@ func (h *isoHist) check(before string, cid int, what string) {
 
 func (h *isoHist) login(cid int, u userRec) {
 	before := h.snapshot(cid)
-	name, perms, err := h.desc.GetPermission("g", group.ClientCredentials{Username: sp(u.name), Password: u.pw.clear})
+	var name string
+	var perms []string
+	var err error
+	watched(h.t, fmt.Sprintf("GetPermission(%q) (isolation stream)", u.name), func() {
+		name, perms, err = h.desc.GetPermission("g", group.ClientCredentials{Username: sp(u.name), Password: u.pw.clear})
+	})
 	if err != nil {
 		h.t.Fail("C08", "harness", "isolation stream: login failed: "+err.Error())
 		return
